@@ -91,7 +91,7 @@ seq_t dtw_distance(seq_t *s1, idx_t l1,
     idx_t dl;
     // DTWPruned
     idx_t sc = 0;
-    idx_t ec = 0;
+    idx_t ec = settings->psi_2b;  // the psi-relaxed first row is 0 up to this column
     bool smaller_found;
     idx_t ec_next;
     // signal(SIGINT, dtw_int_handler); // not compatible with OMP
@@ -251,7 +251,8 @@ seq_t dtw_distance(seq_t *s1, idx_t l1,
                 #ifdef DTWDEBUG
                 printf("dtw[%zu] = %f > %f\n", curidx, dtw[curidx], max_dist);
                 #endif
-                if (!smaller_found) {
+                if (!smaller_found && i >= settings->psi_1b) {
+                    // Rows that can still start at the psi-relaxed first column need column 0
                     sc = j + 1;
                 }
                 if (j >= ec) {
@@ -330,7 +331,7 @@ seq_t dtw_distance_ndim(seq_t *s1, idx_t l1,
     idx_t dl;
     // DTWPruned
     idx_t sc = 0;
-    idx_t ec = 0;
+    idx_t ec = settings->psi_2b;  // the psi-relaxed first row is 0 up to this column
     bool smaller_found;
     idx_t ec_next;
     // signal(SIGINT, dtw_int_handler); // not compatible with OMP
@@ -497,7 +498,8 @@ seq_t dtw_distance_ndim(seq_t *s1, idx_t l1,
                 #ifdef DTWDEBUG
                 printf("dtw[%zu] = %f > %f\n", curidx, dtw[curidx], max_dist);
                 #endif
-                if (!smaller_found) {
+                if (!smaller_found && i >= settings->psi_1b) {
+                    // Rows that can still start at the psi-relaxed first column need column 0
                     sc = j + 1;
                 }
                 if (j >= ec) {
@@ -572,7 +574,7 @@ seq_t dtw_distance_euclidean(seq_t *s1, idx_t l1,
     idx_t dl;
     // DTWPruned
     idx_t sc = 0;
-    idx_t ec = 0;
+    idx_t ec = settings->psi_2b;  // the psi-relaxed first row is 0 up to this column
     bool smaller_found;
     idx_t ec_next;
     // signal(SIGINT, dtw_int_handler); // not compatible with OMP
@@ -726,7 +728,8 @@ seq_t dtw_distance_euclidean(seq_t *s1, idx_t l1,
                 #ifdef DTWDEBUG
                 printf("dtw[%zu] = %f > %f\n", curidx, dtw[curidx], max_dist);
                 #endif
-                if (!smaller_found) {
+                if (!smaller_found && i >= settings->psi_1b) {
+                    // Rows that can still start at the psi-relaxed first column need column 0
                     sc = j + 1;
                 }
                 if (j >= ec) {
@@ -802,7 +805,7 @@ seq_t dtw_distance_ndim_euclidean(seq_t *s1, idx_t l1,
     idx_t dl;
     // DTWPruned
     idx_t sc = 0;
-    idx_t ec = 0;
+    idx_t ec = settings->psi_2b;  // the psi-relaxed first row is 0 up to this column
     bool smaller_found;
     idx_t ec_next;
     // signal(SIGINT, dtw_int_handler); // not compatible with OMP
@@ -964,7 +967,8 @@ seq_t dtw_distance_ndim_euclidean(seq_t *s1, idx_t l1,
                 #ifdef DTWDEBUG
                 printf("dtw[%zu] = %f > %f\n", curidx, dtw[curidx], max_dist);
                 #endif
-                if (!smaller_found) {
+                if (!smaller_found && i >= settings->psi_1b) {
+                    // Rows that can still start at the psi-relaxed first column need column 0
                     sc = j + 1;
                 }
                 if (j >= ec) {
@@ -1064,7 +1068,7 @@ seq_t dtw_warping_paths_ndim(seq_t *wps,
     }
     // DTWPruned
     idx_t sc = 0;
-    idx_t ec = 0;
+    idx_t ec = settings->psi_2b;  // the psi-relaxed first row is 0 up to this column
     idx_t ec_next;
     bool smaller_found;
 
@@ -1152,7 +1156,7 @@ seq_t dtw_warping_paths_ndim(seq_t *wps,
                 smaller_found = true;
                 ec_next = ci + 1;
             } else {
-                if (!smaller_found)
+                if (!smaller_found && ri >= settings->psi_1b)
                     sc = ci + 1;
                 if (ci >= ec)
                     break;
@@ -1202,7 +1206,7 @@ seq_t dtw_warping_paths_ndim(seq_t *wps,
                 smaller_found = true;
                 ec_next = ci + 1;
             } else {
-                if (!smaller_found)
+                if (!smaller_found && ri >= settings->psi_1b)
                     sc = ci + 1;
                 if (ci >= ec)
                     break;
@@ -1252,7 +1256,7 @@ seq_t dtw_warping_paths_ndim(seq_t *wps,
                 smaller_found = true;
                 ec_next = ci + 1;
             } else {
-                if (!smaller_found)
+                if (!smaller_found && ri >= settings->psi_1b)
                     sc = ci + 1;
                 if (ci >= ec)
                     break;
@@ -1312,7 +1316,7 @@ seq_t dtw_warping_paths_ndim(seq_t *wps,
                 smaller_found = true;
                 ec_next = ci + 1;
             } else {
-                if (!smaller_found)
+                if (!smaller_found && ri >= settings->psi_1b)
                     sc = ci + 1;
                 if (ci >= ec)
                     break;
@@ -1443,7 +1447,7 @@ seq_t dtw_warping_paths_ndim_euclidean(seq_t *wps,
                         DTWSettings *settings) {
     // DTWPruned
     idx_t sc = 0;
-    idx_t ec = 0;
+    idx_t ec = settings->psi_2b;  // the psi-relaxed first row is 0 up to this column
     idx_t ec_next;
     bool smaller_found;
 
@@ -1531,7 +1535,7 @@ seq_t dtw_warping_paths_ndim_euclidean(seq_t *wps,
                 smaller_found = true;
                 ec_next = ci + 1;
             } else {
-                if (!smaller_found)
+                if (!smaller_found && ri >= settings->psi_1b)
                     sc = ci + 1;
                 if (ci >= ec)
                     break;
@@ -1582,7 +1586,7 @@ seq_t dtw_warping_paths_ndim_euclidean(seq_t *wps,
                 smaller_found = true;
                 ec_next = ci + 1;
             } else {
-                if (!smaller_found)
+                if (!smaller_found && ri >= settings->psi_1b)
                     sc = ci + 1;
                 if (ci >= ec)
                     break;
@@ -1633,7 +1637,7 @@ seq_t dtw_warping_paths_ndim_euclidean(seq_t *wps,
                 smaller_found = true;
                 ec_next = ci + 1;
             } else {
-                if (!smaller_found)
+                if (!smaller_found && ri >= settings->psi_1b)
                     sc = ci + 1;
                 if (ci >= ec)
                     break;
@@ -1694,7 +1698,7 @@ seq_t dtw_warping_paths_ndim_euclidean(seq_t *wps,
                 smaller_found = true;
                 ec_next = ci + 1;
             } else {
-                if (!smaller_found)
+                if (!smaller_found && ri >= settings->psi_1b)
                     sc = ci + 1;
                 if (ci >= ec)
                     break;
